@@ -518,10 +518,11 @@ impl chain::Listen for Watcher {
             .map(|(_, tx)| (Locator::new(tx.compute_txid()), (*tx).clone()))
             .collect();
 
-        self.locator_cache
-            .lock()
-            .unwrap()
-            .update(*header, &locator_tx_map);
+        // The cache is kept locked until the breaches found in this block have been handled. Otherwise an appointment added
+        // (or updated) meanwhile could be handed to the Responder twice, once by each thread, with the second (bouncing) response
+        // wiping out the first one.
+        let mut locator_cache = self.locator_cache.lock().unwrap();
+        locator_cache.update(*header, &locator_tx_map);
 
         // Get the breaches found in this block, handle them, and delete invalid ones.
         if let Some(invalid_breaches) = self.handle_breaches(self.get_breaches(locator_tx_map)) {
